@@ -107,3 +107,68 @@ def install(world):
                 "clause_text": {k: f"result['{k}']" for k in ("own-volume-array", "grid-ids", "wells-array", "volumes-layout", "index-map", "index-map-nothing-else",
                                                                "positions", "limits", "history", "attributes")}},
     ))
+
+
+# ----------------------------------------------------------------------------- Trough.__init__ (1 and 2 columns; everything else symbolic)
+
+TROUGH = "robotools.liquidhandling.labware.Trough.__init__"
+
+
+def trough_args(ex, columns, names="none", vols="scalar", virtual_rows="int"):
+    from pyvc.values import SeqV
+
+    env = {"self": new_obj(ex, "Trough"), "name": sstr("name"), "columns": columns,
+           "virtual_rows": sint("virtual_rows") if virtual_rows == "int" else sreal("virtual_rows"),
+           "min_volume": sreal("min_volume"), "max_volume": sreal("max_volume")}
+    if vols == "scalar":
+        env["initial_volumes"] = sreal("iv0")
+    elif vols == "default":
+        pass
+    else:
+        env["initial_volumes"] = SeqV.of("list", [sreal(f"iv{c}") for c in range(vols)])
+    if names == "none":
+        env["column_names"] = None
+    elif names == "str":
+        env["column_names"] = sstr("cname")
+    else:
+        env["column_names"] = SeqV.of("list", [None if k is None else sstr(f"cname{i}") for i, k in enumerate(names)])
+    return env
+
+
+def tscen(columns, names="none", vols="scalar", virtual_rows="int"):
+    return Scenario(f"{columns} column(s), column_names={names}, initial_volumes={vols}, virtual_rows:{virtual_rows}",
+                    lambda ex: trough_args(ex, columns, names, vols, virtual_rows))
+
+
+TVR_OK = "(is_int(virtual_rows) and 1 <= virtual_rows and virtual_rows <= 26)"
+T_ACCEPT = f"({TVR_OK} and {MIN_OK} and {MAX_OK} and trough_args_ok(columns, column_names, initial_volumes, max_volume))"
+
+_install_c20 = install
+
+
+def install(world):  # noqa: F811
+    _install_c20(world)
+    register(world, Contract(
+        func=TROUGH, serves=["C20", "C05", "C08"],
+        scenarios=[tscen(1), tscen(2), tscen(1, "str"), tscen(2, "str"), tscen(2, ["str", None], 2), tscen(2, [None, None], 2), tscen(2, ["str", "str"], 2),
+                   tscen(2, "none", 3), tscen(2, [None], 2), tscen(1, [None], 1), tscen(2, virtual_rows="float"), tscen(1, "none", "default")],
+        raises=[("ValueError", f"not {T_ACCEPT}")],
+        ensures=[
+            ("grid-ids", "length(self.row_ids) == virtual_rows and length(self.column_ids) == columns and forall(0, columns, lambda c: self.column_ids[c] == c + 1)", ["C20", "C08"]),
+            ("wells-array", "same(self._wells, arr2(virtual_rows, columns, lambda r, c: well(r, c + 1)))", ["C20", "C08"]),
+            ("volumes-per-column", "trough_volumes_ok(self, columns, initial_volumes)", ["C20"]),
+            ("index-map", "forall2(virtual_rows, columns, lambda r, c: known_well(self, well(r, c + 1)) and real_index(self, well(r, c + 1)) == (0, c))", ["C20", "C08"]),
+            ("index-map-nothing-else", "forall2(26, columns + 5, lambda r, c: implies(r >= virtual_rows or c >= columns, not known_well(self, well(r, c + 1))))", ["C20", "C08"]),
+            ("positions", "forall2(virtual_rows, columns, lambda r, c: self._positions[well(r, c + 1)] == 1 + c * virtual_rows + r)", ["C20", "C08"]),
+            ("limits", "0 <= self.min_volume and self.min_volume < self.max_volume and "
+                       "forall2(1, columns, lambda r, c: 0 <= self._volumes[r, c] and self._volumes[r, c] <= self.max_volume)", ["C20", "C02"]),
+            ("history", "length(self._history) == 1 and same(self._history[0], self._volumes) and not_aliased(self._history[0], self._volumes)"
+                        " and length(self._labels) == 1 and self._labels[0] == 'initial'", ["C20", "C11"]),
+            ("attributes", "self.name == name and self.min_volume == min_volume and self.max_volume == max_volume and self.virtual_rows == virtual_rows", ["C20"]),
+            ("one-100%-component-per-filled-column", "trough_composition_ok(self, name, columns, column_names, initial_volumes)", ["C20", "C05"]),
+        ],
+        native={"imports": ["from pyvc.native_io import _make_trough"], "check_raises": False, "returns_native": False,
+                "call": "_make_trough(name, virtual_rows, columns, min_volume, max_volume, **dict(([('initial_volumes', initial_volumes)] if 'initial_volumes' in dir() else []) + [('column_names', column_names)]))",
+                "clause_text": {k: f"result['{k}']" for k in ("grid-ids", "wells-array", "volumes-per-column", "index-map", "index-map-nothing-else", "positions",
+                                                               "limits", "history", "attributes", "one-100%-component-per-filled-column")}},
+    ))
